@@ -19,6 +19,9 @@ DROPPED_CALLS = {'print', 'print_timing', 'update_timer', 'warnings.warn', 'time
                  'time.sleep', 'gc.collect'}
 
 
+FSTRING_HOOKS = {}      # f-string template ('unmapped_{}_{}') -> handler(ev, state, part values) -> SymVal | None
+
+
 class PendingRaise:
     def __init__(self, exc, conds, havoc_refs=()):
         self.exc = exc
@@ -348,13 +351,26 @@ class Evaluator:
     def e_JoinedStr(self, state, node):
         # f-string: an uninterpreted name built from its parts (A-STR); parts are evaluated
         # for their safety obligations only
+        vals = []
+        template = ''
         for v in node.values:
             if isinstance(v, ast.FormattedValue):
+                template += '{}' if (v.format_spec is None and v.conversion == -1) else '{:?}'
                 try:
-                    self.eval(state, v.value)
+                    vals.append(self.eval(state, v.value))
                 except Unsupported:
                     if not self.ctx.lenient:
                         raise
+                    vals.append(None)
+            elif isinstance(v, ast.Constant):
+                template += str(v.value)
+        # an extension may give one particular template a (trusted) model, keyed by its text
+        hook = FSTRING_HOOKS.get(template)
+        if hook is not None and all(x is not None for x in vals):
+            r = hook(self, state, vals)
+            if r is not None:
+                self.ctx.trusted_used.add('fstring:' + template)
+                return r
         return fresh(T.NAME, 'fstr')
 
     def e_UnaryOp(self, state, node):
